@@ -1,5 +1,5 @@
 \* exhaustive: 1 content copy, 2 chunks, 2 saves per command (sync: before and after the parity update)
-CONSTANTS NCopies = 1  NChunks = 2  NSaves = 2  Guarded = TRUE
+CONSTANTS NCopies = 1  NChunks = 2  NSaves = 2  WriteFaults = TRUE  VerifyAll = TRUE  Guarded = TRUE
 SPECIFICATION Spec
 INVARIANT TypeOK
 INVARIANT CopiesWhole
